@@ -597,6 +597,13 @@ def check_interp_xoprob(prog, rep):
         for st in body:
             if isinstance(st, ast.If):
                 inner = [s for s in ast.walk(st) if isinstance(s, ast.Assign) and len(s.targets) == 1 and field_of(s.targets[0]) in ("vrnt_genpos", "vrnt_xoprob")]
+                # the positions may also be (re)computed by the sibling method: self.interp_genpos(gmap)
+                via = [s for s in ast.walk(st) if isinstance(s, ast.Call) and dump(s.func) in ("self.interp_genpos",)]
+                if not inner and via and not any(isinstance(s, ast.Raise) for s in st.body):
+                    rep.violate("R6-xoprob", construct, "the genetic positions are (re)computed (self.interp_genpos) only when `%s`: a matrix that already carries positions keeps "
+                                "them, so the crossover probabilities are not those of the map passed in" % dump(st.test)[:50], where(f, st), "unconditional interpolation",
+                                "if %s: ..." % dump(st.test)[:50])
+                    return
                 if inner and not any(isinstance(s, ast.Raise) for s in st.body):
                     fld = field_of(inner[0].targets[0])
                     rep.violate("R6-xoprob", construct, "%s is (re)computed only when `%s`: a matrix that already carries positions keeps them, so the crossover probabilities "
